@@ -49,7 +49,7 @@ pub fn check_c04(buf: &[u8], off: usize, width_sel: u8, spec_sel: u8) -> Result<
     Ok(())
 }
 
-/// C15: StringTable::get_raw == the NUL-terminated run at off; get == the same bytes as a str iff they are valid UTF-8
+/// C15: StringTable::get_raw == the NUL-terminated run at off
 pub fn check_c15(buf: &[u8], off: usize) -> Result<(), String> {
     let t = elf::string_table::StringTable::new(buf);
     let r = t.get_raw(off);
@@ -60,15 +60,50 @@ pub fn check_c15(buf: &[u8], off: usize) -> Result<(), String> {
         (Ok(s), None) => { fail!("get_raw({}) returned Ok({:?}) but no NUL follows inside the table", off, s); }
         (Err(e), Some(_)) => { fail!("get_raw({}) returned Err({:?}) although a NUL-terminated string starts there", off, e); }
     }
+    Ok(())
+}
+
+/// well-formed UTF-8 per the Unicode standard, table 3-7 (independent of core::str)
+pub fn utf8_ok(b: &[u8]) -> bool {
+    let n = b.len(); let mut i = 0;
+    while i < n {
+        let c = b[i];
+        if c < 0x80 { i += 1; continue; }
+        let cont = |k: usize| k < n && (b[k] & 0xC0) == 0x80;
+        if (0xC2..=0xDF).contains(&c) { if !cont(i + 1) { return false; } i += 2; continue; }
+        if (0xE0..=0xEF).contains(&c) {
+            if !(cont(i + 1) && cont(i + 2)) { return false; }
+            if c == 0xE0 && b[i + 1] < 0xA0 { return false; }
+            if c == 0xED && b[i + 1] > 0x9F { return false; }
+            i += 3; continue;
+        }
+        if (0xF0..=0xF4).contains(&c) {
+            if !(cont(i + 1) && cont(i + 2) && cont(i + 3)) { return false; }
+            if c == 0xF0 && b[i + 1] < 0x90 { return false; }
+            if c == 0xF4 && b[i + 1] > 0x8F { return false; }
+            i += 4; continue;
+        }
+        return false;
+    }
+    true
+}
+/// C15: StringTable::get == the NUL-terminated run at off as a str iff those bytes are valid UTF-8 (an error otherwise)
+pub fn check_c15_get(buf: &[u8], off: usize) -> Result<(), String> {
+    let t = elf::string_table::StringTable::new(buf);
+    let mut nul = None;
+    if off < buf.len() { let mut k = off; while k < buf.len() { if buf[k] == 0 { nul = Some(k - off); break; } k += 1; } }
     let g = t.get(off);
     match nul {
-        None => if g.is_ok() { fail!("get({}) is Ok although get_raw is an error", off); },
-        Some(k) => match (g, core::str::from_utf8(&buf[off..off + k])) {
-            (Ok(s), Ok(w)) => if s.as_bytes() != w.as_bytes() { fail!("get({}) returned {:?}, expected {:?}", off, s, w); },
-            (Err(_), Err(_)) => {}
-            (Ok(s), Err(_)) => fail!("get({}) returned Ok({:?}) although the bytes are not valid UTF-8", off, s),
-            (Err(e), Ok(w)) => fail!("get({}) returned Err({:?}) although the string {:?} is valid UTF-8", off, e, w),
-        },
+        None => if g.is_ok() { fail!("get({}) is Ok although no NUL-terminated string starts there", off); },
+        Some(k) => {
+            let want = &buf[off..off + k];
+            match (g, utf8_ok(want)) {
+                (Ok(s), true) => if s.as_bytes() != want { fail!("get({}) returned {:?}, expected the bytes {:?}", off, s, want); },
+                (Err(_), false) => {}
+                (Ok(s), false) => fail!("get({}) returned Ok({:?}) although the bytes are not valid UTF-8", off, s),
+                (Err(e), true) => fail!("get({}) returned Err({:?}) although the string {:?} is valid UTF-8", off, e, want),
+            }
+        }
     }
     Ok(())
 }
